@@ -731,7 +731,7 @@ Qed.
 
 Definition sw_scr : screen :=
   mkscr (mkfb 2 2 [[1; 2]; [3; 4]])
-        (Some (mkcur 1 1 0 0 None [128] (Some [9]) None false (0, 0, 0) (0, 0, 0))) 0 0 [].
+        (Some (mkcur 1 1 0 0 None [128] (Some [9]) None false (0, 0, 0) (0, 0, 0) false)) 0 0 [].
 Definition sw_cl : client :=
   mkcl true true false false false 0 0 rgn_none rgn_none (mkfb 2 2 [[1; 2]; [3; 4]]) true false.
 
@@ -1009,4 +1009,70 @@ Lemma rich_cache_old_refuted :
 Proof.
   do 2 eexists. split; [vm_compute; reflexivity|]. split; [vm_compute; reflexivity|].
   eexists. vm_compute. reflexivity.
+Qed.
+
+(* ------------------------------------------------------------------ rfbNewFramebuffer and the cached rich form *)
+(* the cached rich form of an X-style cursor is what rfbMakeRichCursorFromXCursor gives for the
+   CURRENT server format *)
+Definition CacheOK (fmt : pixfmt) (c : cursor) : Prop :=
+  forall r, cderived c = true -> crich c = Some r -> csource c <> None -> make_rich_from_x fmt c = Some r.
+
+Lemma make_rich_set_rich : forall fmt c r, make_rich_from_x fmt (set_rich c r) = make_rich_from_x fmt c.
+Proof. reflexivity. Qed.
+
+Lemma fmt_eqb_eq : forall a b, fmt_eqb a b = true -> a = b.
+Proof.
+  intros [a1 a2 a3 a4 a5 a6 a7] [b1 b2 b3 b4 b5 b6 b7] H. unfold fmt_eqb in H; cbn in H.
+  rewrite !andb_true_iff, !Z.eqb_eq in H. destruct H as ((((((H1 & H2) & H3) & H4) & H5) & H6) & H7). congruence.
+Qed.
+
+Theorem cache_ok_ensure_rich : forall fmt c c' r,
+  CacheOK fmt c -> ensure_rich fmt c = Some (c', r) -> CacheOK fmt c'.
+Proof.
+  intros fmt c c' r Ok H. unfold ensure_rich in H. destruct (crich c) as [r0|] eqn:Er.
+  - inversion H; subst. exact Ok.
+  - destruct (make_rich_from_x fmt c) as [l|] eqn:Em; [|discriminate]. inversion H; subst.
+    intros r1 _ Hr _. cbn in Hr. inversion Hr; subst. rewrite make_rich_set_rich. exact Em.
+Qed.
+
+Theorem cache_ok_newfb : forall fold fnew c c',
+  CacheOK fold c -> newfb_cursor fold fnew (Some c) = Some c' -> CacheOK fnew c'.
+Proof.
+  intros fold fnew c c' Ok H. unfold newfb_cursor in H.
+  destruct (fmt_eqb fold fnew) eqn:E; cbn [negb andb] in H.
+  - inversion H; subst. apply fmt_eqb_eq in E. subst. exact Ok.
+  - destruct (csource c) as [s0|] eqn:Es; cbn [andb] in H.
+    + destruct (crich c) as [r0|] eqn:Er; cbn [andb] in H.
+      * destruct (cderived c) eqn:Ed; inversion H; subst.
+        -- intros r _ Hr _. cbn in Hr. discriminate.
+        -- intros r Hd. congruence.
+      * inversion H; subst. intros r _ Hr. congruence.
+    + inversion H; subst. intros r _ _ Hs. congruence.
+Qed.
+
+Theorem cache_ok_use_shared : forall tag fmt c, tag <> None -> CacheOK fmt (use_shared true tag fmt c).
+Proof.
+  intros tag fmt c Ht. destruct tag as [b|]; [|congruence]. unfold use_shared.
+  destruct (crich c) as [r0|] eqn:Er.
+  - intros r _ Hr. cbn in Hr. discriminate.
+  - intros r _ Hr. congruence.
+Qed.
+
+(* rfbNewFramebuffer (same size): every client keeps its invariant (everything is marked modified) *)
+Theorem inv_new_framebuffer : forall fixed fold fnew s cls f,
+  wf_fb f -> same_shape f (sfb s) ->
+  Forall (Inv fixed fold s) cls ->
+  Forall (Inv fixed fnew (fst (new_framebuffer fold fnew s cls f))) (snd (new_framebuffer fold fnew s cls f)).
+Proof.
+  intros fixed fold fnew s cls f Wf Sh F. cbn [new_framebuffer fst snd].
+  apply Forall_forall. intros c Hin. apply in_map_iff in Hin. destruct Hin as (cl & E & Hin). subst c.
+  rewrite Forall_forall in F. destruct (F _ Hin) as [Sp _]. split.
+  - cbn [pic set_modif sfb]. eapply same_shape_trans; [exact Sp|apply same_shape_sym; exact Sh].
+  - intros x y M. cbn [modif set_modif] in M. cbn [pic set_modif sfb].
+    destruct (fb_get f x y) as [p|] eqn:G.
+    + destruct (wf_fb_get_lt _ _ _ _ Wf G). unfold rgn_rect in M.
+      replace ((0 <=? x) && (x <? fw f) && (0 <=? y) && (y <? fh f)) with true in M; [discriminate|].
+      symmetry. rewrite !andb_true_iff, !Z.leb_le, !Z.ltb_lt. lia.
+    + cbn. eapply same_shape_get_none; [|exact G].
+      eapply same_shape_trans; [exact Sh|apply same_shape_sym; exact Sp].
 Qed.
